@@ -77,7 +77,7 @@ def verify_function(table, reg, qual, cls, props, timeout_ms=None):
         res["error"] = "function %s not found in /repo working tree" % qual
         return res
     res.update({"file": f.file, "line": f.lineno, "sha256": f.sha256, "segment_lines": f.segment.count("\n") + 1})
-    prover = Prover(timeout_ms=timeout_ms, axioms=reg.axioms)
+    prover = Prover(timeout_ms=timeout_ms, axioms=reg.axioms_for(c.axiom_sets if c else ()))
     eng = Engine(table, reg, prover, self_class=cls, unit=unit, props=props)
     eng.func = f
     eng.cur_class = f.cls
@@ -256,7 +256,7 @@ def verify_lemma(table, reg, name, timeout_ms=None):
     res = {"unit": "lemma:" + name, "qual": name, "cls": None, "kind": "lemma", "obligations": [],
            "unsupported": None, "vacuous": False, "error": None, "props": list(lem.props),
            "file": "sidecar", "sha256": None}
-    prover = Prover(timeout_ms=timeout_ms, axioms=reg.axioms)
+    prover = Prover(timeout_ms=timeout_ms, axioms=reg.axioms_for(lem.axiom_sets))
     eng = Engine(table, reg, prover, self_class=None, unit="lemma:" + name, props=lem.props)
     eng.lemma_mode = True
     try:
